@@ -73,18 +73,36 @@ def tables(cfg, d):
     return [''.join(tr['name']) + '_u' for tr in cfg['tr']]
 
 
-def present(f, cfg):
+def present(f, cfg, listed=None):
+    """listed: the categories given as nogroup=[...] - their tracers are
+    stored under the plain name, the others are read through the group
+    accessor f.groups[category].variables[name]"""
     out = {'dims': {}, 'vars': [], 'tau0': [], 'tau1': []}
     for k in ('time', 'latitude', 'longitude'):
         out['dims'][k] = int(len(f.dimensions[k])) if k in f.dimensions \
             else -1
     for tr in cfg['tr']:
-        key = '%s_%s' % (''.join(tr['cat']), ''.join(tr['name']))
-        rec = {'key': key, 'found': key in f.variables, 'shape': [],
+        cat, nm = ''.join(tr['cat']), ''.join(tr['name'])
+        key = '%s_%s' % (cat, nm)
+        where = f.variables
+        if listed is not None:
+            if cat in listed:
+                key = nm
+            else:
+                try:
+                    where = f.groups[cat].variables
+                    key = nm
+                except Exception:
+                    where = {}
+        try:
+            found = key in where or where[key] is not None
+        except Exception:
+            found = False
+        rec = {'key': key, 'found': bool(found), 'shape': [],
                'tracerid': -1, 'ok': False, 'x2': [], 'units': '',
                'start': [-1, -1, -1]}
         if rec['found']:
-            v = f.variables[key]
+            v = where[key]
             a = np.asarray(v[...], dtype='d')
             rec['shape'] = [int(s) for s in a.shape]
             rec['tracerid'] = int(getattr(v, 'tracerid', -1))
@@ -188,6 +206,12 @@ def run_case(arg):
                 pass
             return present(bpch1(os.path.join(od2, 'w.bpch')), cfg)
         tr['rt'] = attempt(rd_rt)
+        def rd_grp():
+            # the categories of the first tracer without group prefix, the
+            # others through the group accessors
+            listed = [''.join(cfg['tr'][0]['cat'])]
+            return present(bpch1(path, nogroup=listed), cfg, listed)
+        tr['grp'] = attempt(rd_grp)
         alt = {}
 
         def rd_alt():
